@@ -190,6 +190,26 @@ def one_relational(rnd, acc, api):
             acc.case((kind, T, expr), len(rows) >= 2)
             if not rows_eq(r, exp):
                 fail('result', f'{expr!r} over {rows!r:.300}: got {r!r:.300} expected {exp!r:.300}')
+            elif variables is not None:
+                # history: the variables of ONE call are gone afterwards - a later call without variables (and the script itself)
+                # sees the global of that name again
+                gk = rnd.choice(keypool)
+                exp2 = [row for row in rows if refval.truthy(ref_row_eval(expr, row, {'kk': gk}))]
+                if via_python:
+                    g = {'kk': gk}
+                    o = {'globals': g}
+                    bare_script.filter_data(copy.deepcopy(rows), expr, variables, o)
+                    r2 = bare_script.filter_data(copy.deepcopy(rows), expr, None, o)
+                    kk_after = g.get('kk')
+                else:
+                    vs = ', objectNew(' + lit('kk') + ', ' + lit(variables['kk']) + ')'
+                    (r2, kk_after), _ = run_script(api, f'kk = {lit(gk)}\ndd = {T}\nr1 = dataFilter(dd, {lit(expr)}{vs})\nr2 = dataCalculatedField(arrayCopy(dd), \'zq\', \'1\', objectNew(\'kk\', 0))\n'
+                                                        f'return arrayNew(dataFilter(dd, {lit(expr)}), kk)')
+                acc.count('variables_history_checks')
+                if not veq(kk_after, gk):
+                    fail('variables-leak', f'global kk is {kk_after!r} after a call with variables {variables!r}; it was {gk!r}')
+                elif not rows_eq([{k: v for k, v in row.items() if k != 'zq'} for row in r2] if isinstance(r2, list) else r2, exp2):
+                    fail('variables-leak', f'{expr!r} without variables after a call with variables {variables!r} (global kk={gk!r}): got {r2!r:.300} expected {exp2!r:.300}')
         elif kind == 'sort':
             ks = rnd.sample(fields, rnd.randint(1, min(3, len(fields))))
             sorts = [[k, rnd.random() < 0.5] for k in ks]
@@ -536,6 +556,26 @@ def run_shard(spec, acc):
         acc.case('directed:2024-02-30', True)
         if not (isinstance(got, list) and len(got) == 2 and got[0].get('d') == '2024-02-30' and got[0].get('n') == 1):
             acc.violation('csv:date-like-text', f"dataParseCSV('d,n','2024-02-30,1','2024-02-31,2') = {got!r}; {logs[-1:]!r:.300}", {'csv': 'd,n\n2024-02-30,1\n2024-02-31,2'})
+
+
+        # ... also at the calendar boundaries, where the conversion to local time (not a field range check) is what fails
+        must_stay = ['2024-02-30', '2024-13-01', '2023-02-29', '2024-04-31', '9999-12-31T23:59:59-12:00', '0001-01-01T00:00:00+14:00', '2024-01-01T25:00:00Z',
+                     '2024-01-01T12:61:00Z', '0000-01-01', '2024-00-10']
+        may_parse = ['9999-12-31T23:59:59Z', '0001-01-01T00:00:00Z', '9999-12-31', '0001-01-01', '2024-02-29', '2024-12-31T23:59:59.999+05:45']
+        for t in must_stay + may_parse:
+            for second in ('2024-01-05', 'zz', ''):
+                if t in may_parse and second == 'zz':
+                    continue  # a column typed datetime by its first cell legitimately rejects 'zz'
+                try:
+                    got, logs = run_script(api, f"return dataParseCSV('d,n', '{t},1', '{second},2')")
+                except Exception as exc:  # pylint: disable=broad-except
+                    got, logs = exc, []
+                acc.case(('directed-date-like', t, second), True)
+                acc.count('date_like_directed')
+                ok = isinstance(got, list) and len(got) == 2 and got[0].get('n') == 1 and (got[0].get('d') == t or (t in may_parse and isinstance(got[0].get('d'), datetime.date)))
+                if not ok:
+                    acc.violation('csv:date-like-text', f"dataParseCSV('d,n','{t},1','{second},2') = {got!r:.300}; {logs[-1:]!r:.300}", {'csv': f'd,n\n{t},1\n{second},2'})
+                    break
 
 
 def replay(spec, acc):
